@@ -35,15 +35,15 @@ from .common import mpm_class, own_method, usm_class
 
 
 def run(ctx: Ctx, rep: Report) -> None:
-    rep.rule("C10-R1", "msgFlags: reportable for exactly the confirmed-class PDUs; auth / priv mirror the credentials", floor=10)
-    rep.rule("C10-R2", "security parameters carry the discovered engine id, boots, time and the user name in RFC order", floor=5)
-    rep.rule("C10-R3", "encrypt, then authenticate; the digest is spliced into otherwise unchanged parameters", floor=5)
-    rep.rule("C10-R4", "auth plug-ins pair the right hash, digest length and HMAC", floor=2)
-    rep.rule("C10-R5", "RFC 3414 A.2 key derivation constants and localisation", floor=5)
+    rep.rule("C10-R1", "msgFlags: reportable for exactly the confirmed-class PDUs; auth / priv mirror the credentials", floor=5)
+    rep.rule("C10-R2", "security parameters carry the discovered engine id, boots, time and the user name in RFC order", floor=3)
+    rep.rule("C10-R3", "encrypt, then authenticate; the digest is spliced into otherwise unchanged parameters", floor=3)
+    rep.rule("C10-R4", "auth plug-ins pair the right hash, digest length and HMAC", floor=1)
+    rep.rule("C10-R5", "RFC 3414 A.2 key derivation constants and localisation", floor=3)
     rep.rule("C10-R6", "incoming digest over the received bytes or a canonical (minimal-length) re-serialisation", floor=4)
     rep.rule("C10-R7", "an authentic message is accepted", floor=1)
-    rep.rule("C10-R9", "encrypted requests and responses: the privacy plug-in is called with the localised key and the message's own engine id, boots, time and salt; the plaintext parsed is its output (shared with C11-R1/R2/R3)", floor=8)
-    rep.rule("C10-R8", "the re-serialisation used for the incoming digest reproduces every received field: decoders and encoders agree and decoding is lossless (shared with C06-R3)", floor=8)
+    rep.rule("C10-R9", "encrypted requests and responses: the privacy plug-in is called with the localised key and the message's own engine id, boots, time and salt; the plaintext parsed is its output (shared with C11-R1/R2/R3)", floor=5)
+    rep.rule("C10-R8", "the re-serialisation used for the incoming digest reproduces every received field: decoders and encoders agree and decoding is lossless (shared with C06-R3)", floor=5)
     rep.assumptions += [
         "hashlib / hmac implement MD5, SHA-1 and HMAC (hash arithmetic is not analysed)",
         "x690 encodes content octets deterministically; only the length form is analysed",
